@@ -6,28 +6,32 @@
 EXTENDS Catalogue
 
 (* ------------------------------------ (a) owner matrix ------------------------------------ *)
-Signers == {"owner", "other", "module"}
+(* Holders: the fixture accounts whose positions are named; Signers: every fixture account plus a module address. Every row
+   is run against the positions of every holder with every account as signer (so that id coincidences between different
+   kinds of records of different users are hit, e.g. a borrow id that equals somebody else's lend id). *)
+Holders == {"owner", "other", "risk"}
+Signers == {"owner", "other", "risk", "newbie", "admin", "lp", "module"}
 OwnerRows == {r \in Rows : r.own \in {"id", "signer"}}
 
 (* Abstract position state: who owns it and a version that every successful move / reduce / close bumps. *)
-Pos0 == [owner |-> "owner", ver |-> 0]
+Pos0(holder) == [owner |-> holder, ver |-> 0]
 (* The step as the handlers implement it: a message that names the position by id is refused for a foreign
    signer; a message keyed by its signer acts on the signer's OWN position: whether it succeeds depends on what the
-   signer holds (environment choice `env`), and it leaves the owner's position pos untouched. *)
+   signer holds (environment choice `env`), and it leaves the holder's position pos untouched. *)
 OwnerStep(pos, r, signer, env) ==
   IF signer = pos.owner THEN [ok |-> TRUE, pos |-> [pos EXCEPT !.ver = pos.ver + 1]]
   ELSE IF r.own = "id" THEN [ok |-> FALSE, pos |-> pos]
   ELSE [ok |-> env, pos |-> pos]
 (* the outcome is predicted by the spec unless it is the signer's own business *)
-OwnerPredicted(r, signer) == r.own = "id" \/ signer = "owner"
+OwnerPredicted(r, holder, signer) == r.own = "id" \/ signer = holder
 
 (* The property on one step (statement: "succeeds only when signed by that position's owner, and a rejected
    attempt changes no balance and no record"):
      names a position id, foreign signer  => refused
-     keyed by signer, foreign signer      => the owner's position and balances are exactly as before
+     any row, foreign signer              => the holder's position records and balances are exactly as before
      refused                              => nothing changed at all *)
-OwnerOnly(r, signer, ok)              == r.own = "id" /\ signer # "owner" => ~ok
-VictimUntouched(signer, vpre, vpost)  == signer # "owner" => vpre = vpost
+OwnerOnly(r, holder, signer, ok)              == r.own = "id" /\ signer # holder => ~ok
+VictimUntouched(holder, signer, vpre, vpost)  == signer # holder => vpre = vpost
 RejectedChangesNothing(ok, dpre, dpost) == ~ok => dpre = dpost
 
 (* ------------------------------------ (b) privileged matrix ------------------------------------ *)
